@@ -42,6 +42,8 @@ fn jobs(plan: &Plan) -> Vec<Job> {
     let mut v = entry_jobs(plan, "C08", "clear", t.pick(48, 500, 1), |_| true);
     v.extend(entry_jobs(plan, "C08", "exhaustive", 1, |d| EXHAUSTIVE.contains(&d.label)));
     v.extend(stack_jobs(plan, "C08", "stack-clear", t.pick(12, 120, 0), |_| true));
+    v.extend(entry_jobs(plan, "C08", "chain", t.pick(32, 300, 1), |d| super::chain::eligible(d, super::chain::Fin::Clear)));
+    v.extend(stack_jobs(plan, "C08", "stack-chain", t.pick(6, 50, 0), |d| super::chain::eligible_stack(d, super::chain::Fin::Clear)));
     v
 }
 
@@ -65,10 +67,23 @@ fn required(plan: &Plan) -> Vec<String> {
     }
     v.push("residue:stack-index-spilled".into());
     v.push("stack-clear:merged-without-copies".into());
+    for d in plan.reg {
+        if super::chain::eligible(d, super::chain::Fin::Clear) {
+            v.push(format!("chain:{}", d.label));
+        }
+        if super::chain::eligible_stack(d, super::chain::Fin::Clear) {
+            v.push(format!("stack-chain:{}", d.label));
+        }
+    }
+    v.push("next-generation".into());
+    v.extend(super::chain::required_pairs(super::chain::Fin::Clear));
     v
 }
 
 pub fn run<E: Entry>(ctx: &mut Ctx) {
+    if ctx.what == "chain" {
+        return super::chain::run::<E>(ctx, super::chain::Fin::Clear, "fresh-after-clear");
+    }
     if ctx.what == "exhaustive" {
         return exhaustive::<E>(ctx);
     }
@@ -130,6 +145,10 @@ pub fn run<E: Entry>(ctx: &mut Ctx) {
             last = Some(v);
             ctx.nontrivial = true;
         }
+        // residue that only the next generation can see (statistics kept across the clear)
+        if !next_generation::<E>(ctx, &a, &t, "fresh-after-clear", "regions merged from the cleared-and-refilled region / from its fresh twin") {
+            break;
+        }
     }
     ctx.cover(&format!("clear:{}", E::label()));
     ctx.end_history();
@@ -183,6 +202,9 @@ fn exhaustive<E: Entry>(ctx: &mut Ctx) {
 }
 
 pub fn run_stack<E: Entry, S: IdxC<Idx<E>>>(ctx: &mut Ctx) {
+    if ctx.what == "stack-chain" {
+        return super::chain::run_stack::<E, S>(ctx, super::chain::Fin::Clear, "stack-fresh-after-clear");
+    }
     let kind = kind_for(ctx.hist_no / 3);
     let n1 = ctx.rng.range(1, 40);
     let pool: Vec<E::V> = <E::V as Val>::gen_run(&mut ctx.rng, Dom::new(kind), n1 + 4);
